@@ -792,6 +792,37 @@ def transient_io_fault(nth=1):
         h5py.File.__init__ = orig
 
 
+ENV_KEYS = ("LC_ALL", "LANG", "LC_CTYPE", "PYTHONUTF8", "PYTHONCOERCECLOCALE", "PYTHONIOENCODING", "TZ", "PYTHONOPTIMIZE", "PYTHONWARNINGS")
+
+
+def other_environment_body(modname, base_subcheck, envs):
+    """Body of a sub-check that re-runs generated cases of `base_subcheck` in a FRESH interpreter whose process
+    environment differs (locale, time zone, python -O): case = {"cases": [...], "env": index}. The verdict of each
+    case is the base sub-check's own oracle, evaluated in the child."""
+
+    def body(case):
+        import subprocess
+
+        env = dict(os.environ)
+        for k in ENV_KEYS:
+            env.pop(k, None)
+        chosen = envs[case["env"] % len(envs)]
+        env.update(chosen)
+        r = subprocess.run([sys.executable, "-m", "nssverif.child", modname, base_subcheck], input=json.dumps(to_jsonable(case["cases"])), env=env, capture_output=True, text=True, timeout=3600)
+        line = next((ln for ln in r.stdout.splitlines() if ln.startswith("NSSVERIF-CHILD ")), None)
+        if line is None:
+            raise HarnessError(f"the child interpreter produced no result (exit {r.returncode}, environment {chosen}): {r.stderr[-800:]}")
+        res = json.loads(line[len("NSSVERIF-CHILD "):])
+        for c, detail in zip(case["cases"], res):
+            if detail is not None and detail.startswith("HARNESS: "):
+                raise HarnessError(detail)
+            if detail is not None:
+                raise Violation(f"in a process with the environment {chosen}: {detail}", replay_case={"cases": [c], "env": case["env"]})
+        return {"env:" + ",".join(f"{k}={v}" for k, v in sorted(chosen.items()))}
+
+    return body
+
+
 EDIT_LEVELS = ["leaf", "submodel", "section", "holder"]
 
 
